@@ -1,7 +1,7 @@
 (* C01 — Two endpoints built on the library interoperate, even across transport loss.
    Statements only.  Nothing else may be added to this file. *)
 From MQ Require Import Base.Prelude Alloc.Alloc Framing.Framing Framing.FramingProofs Conn.Types Conn.ConnRecord Conn.Step
-                       Corr.ConnTrace Conn.Scope Conn.Session Conn.IdsQuota Conn.Own Conn.OwnStep Conn.Run Conn.PairQos Conn.PairQos5 Conn.PairSeq Conn.PairSeq5 Conn.PairConc.
+                       Corr.ConnTrace Conn.Scope Conn.Session Conn.IdsQuota Conn.Own Conn.OwnStep Conn.Run Conn.PairQos Conn.PairQos5 Conn.PairSeq Conn.PairSeq5 Conn.PairConc Conn.SessInv Conn.PairLoss.
 
 (* what the pair property rests on, each proved for ALL states of one endpoint:
    (i) delivery in any fragmentation is the same byte stream (C09) *)
@@ -173,6 +173,36 @@ Theorem C01_pair_invariant_after_handshake : forall gs gr c1 c2,
 Proof. exact inv_init. Qed.
 Print Assumptions C01_pair_invariant_after_handshake.
 
+(* ACROSS TRANSPORT LOSS (v3.1.1, automatic responses, persistent sessions, a client as sender and a server as receiver):
+   one more action, [Lose] — both sides are told the transport is closed, everything in flight is gone, the client
+   reconnects without Clean Session, the server accepts with Session Present, the client retransmits what it has stored;
+   [run_schedL] answers None when any call panics, reports an error, does not answer a packet as the protocol says, or
+   a step of the resumption does not do exactly what it should.  The pair invariant [invL] adds to [inv] the session
+   invariants of both endpoints (K = OWN /\ SUP /\ ENT), persistence, "the receiver's handled identifiers are identifiers
+   of QoS 2 exchanges the sender has stored" and "a PUBCOMP in flight is for an identifier the receiver has forgotten".
+   For EVERY schedule of publications, deliveries and losses the run succeeds and the invariant holds again ... *)
+Theorem C01_pair_lossy_schedule_succeeds : forall gs gr,
+  role_client_ok gs = true -> role_server_ok gr = true -> 2 + g_idw gs <= MQTT_PACKET_SIZE_NO_LIMIT ->
+  forall l s, invL gs gr s -> Forall good_actL l -> exists s', run_schedL gs gr s l = Some s' /\ invL gs gr s'.
+Proof. exact schedL_ok. Qed.
+Print Assumptions C01_pair_lossy_schedule_succeeds.
+
+(* ... and once losses stop, at most [measure] rounds of deliveries empty both links *)
+Theorem C01_pair_lossy_schedule_drains : forall gs gr,
+  role_client_ok gs = true -> role_server_ok gr = true -> 2 + g_idw gs <= MQTT_PACKET_SIZE_NO_LIMIT ->
+  forall l s, invL gs gr s -> Forall good_actL l ->
+  exists s1 s2, run_schedL gs gr s l = Some s1 /\ run_schedL gs gr s1 (drainL (measure s1)) = Some s2 /\
+                invL gs gr s2 /\ qsr s2 = [] /\ qrs s2 = [].
+Proof. exact lossy_schedule_succeeds_and_drains. Qed.
+Print Assumptions C01_pair_lossy_schedule_drains.
+
+Theorem C01_pair_lossy_invariant_after_handshake : forall gs gr c1 c2,
+  K gs c1 -> ready c1 -> c_auto_pub c1 = true -> c_need_store c1 = true -> c_mps_send c1 = MQTT_PACKET_SIZE_NO_LIMIT ->
+  c_store c1 = [] -> K gr c2 -> ready c2 -> c_auto_pub c2 = true -> c_need_store c2 = true -> c_store c2 = [] -> c_qos2 c2 = [] ->
+  invL gs gr (mkSys c1 c2 [] [] [] []).
+Proof. exact invL_init. Qed.
+Print Assumptions C01_pair_lossy_invariant_after_handshake.
+
 (* the tie of those statements to the step function that the correspondence runs against the code *)
 Theorem C01_send_call_is_send_publish : forall g c p q, c_version c = V311 -> v311_pub p q ->
   step g c (OSend p) = bindr (send_publish_v311 c p) (fun '(c', e) => Ok (c', e, [])).
@@ -189,15 +219,15 @@ Proof. exact step_recv_is_deliver. Qed.
 Print Assumptions C01_recv_call_is_deliver.
 
 (* C01_partial: what is PROVED of the pair is everything above: single exchanges (both versions), any sequence of them
-   (both versions), and — v3.1.1, automatic responses — ANY schedule with several exchanges in flight on intact FIFO
-   links, by a pair invariant and a termination measure.  NOT proved: transport loss and session resumption inside the
-   pair theorem (the per-endpoint facts (ii)-(iii) and C06/C10/C16 say what each side keeps; that the retransmissions of
-   both sides then meet again in the pair invariant is not shown), manual responses, several v5.0 exchanges in flight
-   and topic aliases.  Those — with arbitrary fragmentation, loss points (incl. mid-frame) and workloads from both sides —
-   are decided on PAIRS OF REAL OBJECTS by the monitor mon_c01 (harness conn_duo.rs wires a client and a server object by
-   two byte queues): no protocol error on either side, termination, exactly-once / at-least-once / at-most-once delivery
-   with the original topic and payload, quiescence (all identifiers released, stores empty, full vacancy); both objects
-   are tied to the model by the full-digest correspondence chk_duo. *)
+   (both versions), ANY schedule with several exchanges in flight on intact FIFO links with the exactly-once accounting
+   (v3.1.1, automatic responses), and the same WITH TRANSPORT LOSSES and session resumption as safety and progress.  NOT
+   proved: the delivery accounting across losses (QoS 2 exactly once, QoS 1 at least once), a loss in the middle of the
+   resumption handshake or of a frame, manual responses, several v5.0 exchanges in flight and topic aliases.  Those — with
+   arbitrary fragmentation, loss points (incl. mid-frame) and workloads from both sides — are decided on PAIRS OF REAL
+   OBJECTS by the monitor mon_c01 (harness conn_duo.rs wires a client and a server object by two byte queues): no protocol
+   error on either side, termination, exactly-once / at-least-once / at-most-once delivery with the original topic and
+   payload, quiescence (all identifiers released, stores empty, full vacancy); both objects are tied to the model by the
+   full-digest correspondence chk_duo. *)
 
 (* the premises of the pair theorems are met by two endpoints after an ordinary handshake *)
 Example C01_pair_nonvacuous :
@@ -334,3 +364,37 @@ Example C01_pair_concurrent_nonvacuous :
   | _, _ => False
   end.
 Proof. vm_compute. repeat split; reflexivity. Qed.
+
+
+(* the lossy theorems are not vacuous: two endpoints after a first handshake without Clean Session satisfy the premises
+   of C01_pair_lossy_invariant_after_handshake (K by the history theorem), and a schedule with three losses — one while a
+   QoS 2 PUBLISH has arrived but its PUBREC has not, one while a QoS 1 PUBLISH and a PUBREC are in flight, one before a
+   QoS 2 PUBLISH has arrived at all — runs through and drains: the QoS 2 messages are delivered once each (the third as a
+   retransmission), the QoS 1 message twice (at least once) *)
+Example C01_pair_lossy_nonvacuous :
+  let gs := mkCfg RClient 65535 2 in
+  let gr := mkCfg RServer 65535 2 in
+  let cn := mkPkt 1 V311 0 0 false false [] None 0 0 14 false 0 false 0 None None None None None in
+  let ca := mkPkt 2 V311 0 0 false false [] None 0 0 4 true 0 false 0 None None None None None in
+  let ops_s := [OSetAutoPub true; OSend cn; ORecv [32;2;0;0] (PROk ca)] in
+  let ops_r := [OSetAutoPub true; ORecv [16;12;0;4;77;81;84;84;4;0;0;0;0;0] (PROk cn); OSend ca] in
+  let pb := fun id q pay => mkPkt 3 V311 id q false false [116] None pay 0 (7 + pay) false 0 false 0 None None None None None in
+  let sched := [PubL (pb 1 2 0); ToRL; Lose; PubL (pb 2 1 1); ToRL; ToRL; Lose; ToRL; ToSL; PubL (pb 3 2 5); Lose; ToRL] in
+  k_history_ok gs (conn_new gs V311) ops_s /\ k_history_ok gr (conn_new gr V311) ops_r /\
+  match run_state gs (conn_new gs V311) ops_s, run_state gr (conn_new gr V311) ops_r with
+  | Some c1, Some c2 =>
+      ready c1 /\ c_auto_pub c1 = true /\ c_need_store c1 = true /\ c_mps_send c1 = MQTT_PACKET_SIZE_NO_LIMIT /\ c_store c1 = [] /\
+      ready c2 /\ c_auto_pub c2 = true /\ c_need_store c2 = true /\ c_store c2 = [] /\ c_qos2 c2 = [] /\
+      match run_schedL gs gr (mkSys c1 c2 [] [] [] []) sched with
+      | Some s1 =>
+          map k_pid (qsr s1) = [1; 3] /\ map k_pid (qrs s1) = [2] /\
+          match run_schedL gs gr s1 (drainL (measure s1)) with
+          | Some s2 => map k_pid (published s1) = [1; 2; 3] /\ map (fun x => (k_pid x, k_dup x)) (delivered s2) = [(1, false); (2, false); (2, true); (3, true)] /\
+                       qsr s2 = [] /\ qrs s2 = [] /\ c_qos2 (cr s2) = [] /\ c_store (cs s2) = []
+          | None => False
+          end
+      | None => False
+      end
+  | _, _ => False
+  end.
+Proof. vm_compute. repeat split; try reflexivity; try discriminate; intros; try discriminate; auto. Qed.
